@@ -3,7 +3,6 @@ package main
 // C04 — JSON written by -o and json() is valid and equal to the value it represents.
 
 import (
-	"sort"
 	"bytes"
 	"encoding/json"
 	"fmt"
@@ -12,6 +11,7 @@ import (
 	"os"
 	"os/exec"
 	"path/filepath"
+	"sort"
 	"strconv"
 	"strings"
 	"time"
